@@ -4,6 +4,7 @@ served from a single-reduction cache entry.  Models: lean/RedunModel/Model/EvalC
 lean/RedunModel/Model/CacheLookup.lean."""
 import os
 import random
+import time
 import shutil
 import tempfile
 
@@ -58,6 +59,7 @@ LEVEL_NOTE = ("An inner failure makes the _subrun_root_task job fail in both mod
 TECHNIQUE = "Lean 4 proof of observational equivalence on the big-step model + differential direct/subrun runs on the real Scheduler with Job-row inspection"
 
 FUEL = 120
+CPU_BUDGET_QUICK, CPU_BUDGET_THOROUGH = 6.0, 300.0       # seconds of process CPU for the generated stream (not wall clock)
 SUBRUN_TASK = "redun.subrun_root_task"
 
 
@@ -392,7 +394,7 @@ def context_case(ctx, G, R, name, e, sx, scen, caller, ne, reps):
 def context_section(ctx, G, R, base):
     rng = ctx.rng
     progs = [(n, e, G.to_sx(e)) for n, e in ctx_corpus().items()]
-    for i in range(ctx.n(4, 50)):
+    for i in range(ctx.n(2, 50)):
         prng = random.Random(base * 5 + i)
         gen = G.Gen(prng, p_err=prng.choice([0.0, 0.0, 0.1]), max_fan=2)
         gen.ctx_heavy = True
@@ -405,7 +407,7 @@ def context_section(ctx, G, R, base):
                 pass
     plan = []
     for i, (name, e, sx) in enumerate(progs):
-        scens = [CTX_SCENARIOS[(i + j) % len(CTX_SCENARIOS)] for j in range(2 if ctx.tier == "quick" else 4)]
+        scens = [CTX_SCENARIOS[(i + j) % len(CTX_SCENARIOS)] for j in range((2 if i < 3 else 1) if ctx.tier == "quick" else 4)]
         for j, scen in enumerate(scens):
             caller = ["task", "top", "noprov"][(i + j) % 3]
             ne = True if (i + j) % 2 == 0 else False
@@ -444,7 +446,7 @@ def run(ctx):
     rng = ctx.rng
     progs = [(name, e, G.to_sx(e)) for name, e in corpus().items()]
     base = rng.getrandbits(48)
-    for i in range(ctx.n(14, 50)):
+    for i in range(ctx.n(5, 50)):
         prng = random.Random(base + i)
         gen = G.Gen(prng, p_err=prng.choice([0.0, 0.1, 0.25]), max_fan=3)
         for _ in range(30):
@@ -463,12 +465,22 @@ def run(ctx):
     replies = ctx.model("C01", lines)
     all_cfg = [(ne, cache, cv, "default") for ne in (False, True) for cache in (True, False) for cv in (None, "full")]
     pending = []
+    ncorpus = len(corpus())
+    t_cpu = None
+    cpu_budget = (CPU_BUDGET_QUICK if ctx.tier == "quick" else CPU_BUDGET_THOROUGH) * ctx.search_boost
     for i, (name, e, sx) in enumerate(progs):
+        if i >= ncorpus and t_cpu is None:
+            t_cpu = time.process_time()         # the budget covers the generated stream only
+        if i >= ncorpus and time.process_time() - t_cpu > cpu_budget:
+            ctx.note("CPU budget reached after %d of %d programs (corpus always runs in full)" % (i, len(progs)))
+            ctx.count("budget", "generated programs skipped", len(progs) - i)
+            break
         rep_e, rep_f, rep_t = replies[3 * i:3 * i + 3]
         if ctx.tier == "quick":
-            cfgs = rng.sample(all_cfg, 2)
-            if not any(c[0] is False for c in cfgs):
-                cfgs[0] = (False,) + cfgs[0][1:]
+            # one configuration per program (extend mode for the corpus entries about job stitching), two for a few
+            cfgs = [all_cfg[(i * 3 + 1) % len(all_cfg)]]
+            if name in ("tree", "containers", "deep-error", "leaf-error"):
+                cfgs = [(False, True, None, "default"), (True, i % 2 == 0, "full", "default")]
         else:
             cfgs = rng.sample(all_cfg, 3)
             if i % 10 == 0:
